@@ -202,6 +202,12 @@ def build_cases(tier):
     add(vkinds=("both", "both"), scaler=True)
     add(vkinds=("lower", "both"), scaler=True)
     add(vkinds=("none",))
+    # back-transformation of linear / bound differences through the real configuration path (differential harness of C11)
+    from .c11 import TransformCase
+    for kw in (dict(N=2, L=1, C=0, lkinds=("both",), var_bounds="none", obj_scaler=False),
+               dict(N=2, L=1, C=1, lkinds=("upper",), nkinds=("lower",), fail=True)):
+        k += 1
+        cases.append(TransformCase(f"c13-{k:03d}", **kw))
     if tier == "thorough":
         for combo in itertools.product(vk, repeat=3):
             add(vkinds=combo)
